@@ -70,6 +70,22 @@ var concCases = []concCase{
 	{`(?i)hello`, []string{"say HeLLo", "hell"}},
 	{`a+?b*?c`, []string{"aaabbbc", "abac"}},
 	{`[ab]+[cd]+`, []string{"xxabcdxx", "ab cd"}},
+	// one case per further strategy / scratch object (reverse searchers with several candidates, one-pass captures,
+	// two-phase capture extraction, cold and overflowing DFA caches, literal engines)
+	{`[a-z]+[0-9]*[a-z]*\.txt`, []string{".txt a.txt b1c.txt", "x.txt .txt.txt", "no suffix"}},
+	{`(\w+)@(\w+)\.(\w+)`, []string{"mail bob@site.com now", "a@b c@d.e f@g.h"}},
+	{`.*\.(txt|log|dat)`, []string{"a.txt b.log", "c.dat\nd.txt", "none"}},
+	{`^(\w+)\s(\w+)$`, []string{"hello world", "one two", "x y z"}},
+	{`(foo|bar)baz`, []string{"xx foobaz barbaz", "bazfoo"}},
+	{`[ab]*a[ab]{13}c`, []string{"abababababababababababababac abbbbbbbbbbbbbbc", "bbbbbbbbbbbbbbbbabbbbbbbbbbbbbc"}},
+	{`.*connection.*`, []string{"lost connection to db", "x\nconnection\ny", "none"}},
+	{`[a-zA-Z ]+[0-9:;,.!?_#%-][a-zA-Z ]+ERROR.*[0-9]`, []string{"k7 zERROR zERROR 9", "a1 bERROR"}},
+	{`(?m)^\w+ error$`, []string{"disk error\nnet error", "an error here"}},
+	{`(?:apple|banana|cherry|date|elderberry|fig|grape|honeydew|kiwi|lemon|mango|nectarine)`, []string{"a fig and a kiwi", "pear"}},
+	{`^abc.*xyz$`, []string{"abc---xyz", "abc\nxyz"}},
+	{`^(foo|bar)\d+`, []string{"foo12", "bar", "baz1"}},
+	{`(\d{4})-(\d{2})-(\d{2})`, []string{"on 2026-09-23 and 1999-01-02", "20260923"}},
+	{`x*`, []string{"axxb", ""}},
 }
 
 var concAPIs = []func(re *coregex.Regex, h string) string{
